@@ -196,6 +196,10 @@ def alphabet():
         "gmres": (sq, lambda A, a: gmres(A, a.x, x0=a.x0, max_iters=5, tol=1e-8)[0]),
         "pinv": (None, lambda A, a: L.pinv(A) @ a.y), "slogdet": (sq, lambda A, a: L.slogdet(A)), "diag": (sq, lambda A, a: L.diag(A, 1)),
         "trace": (sq, lambda A, a: L.trace(A)), "hutch": (sq, lambda A, a: L.diag(A, 0, a.alg_hutch)),
+        # one caller-owned Auto(...) object carrying options, shared by routines of different families
+        "eigmax_auto_obj": (sq, lambda A, a: L.eigmax(A, a.alg_auto)), "eig1_auto_obj": (sq, lambda A, a: L.eig(A, 1, "LM", a.alg_auto)),
+        "trace_auto_obj": (sq, lambda A, a: L.trace(A, a.alg_auto)), "inv_auto_obj": (sq, lambda A, a: L.inv(A, a.alg_auto) @ a.x),
+        "exp_auto_obj": (sq, lambda A, a: L.exp(A, a.alg_auto) @ a.x),
         "exp": (sq, lambda A, a: L.exp(A) @ a.x), "sqrt": ("psd", lambda A, a: L.sqrt(A) @ a.x), "pow2": (sq, lambda A, a: L.pow(A, 2) @ a.x),
         "eig": (sq, lambda A, a: L.eig(A, 2, "LM", L.Eig())), "svd": (None, lambda A, a: svd(A, 2)),
         "cholesky": ("psd", lambda A, a: cholesky(A).to_dense()), "plu": (sq, lambda A, a: [f.to_dense() for f in plu(A)]),
